@@ -155,6 +155,8 @@ class Env:
         self.b64[token] = value
 
     def urlsafe_b64encode(self, v):
+        if not isinstance(v, Opaque) and len(v) == 0:
+            return b""                # BASE64URL of the empty octet string is the empty string (an "absent when empty" member depends on it)
         for val, tok in self.b64_made:
             if type(val) is type(v) and val == v:
                 return tok
